@@ -1,3 +1,4 @@
+pub mod dict;
 pub mod rng;
 pub mod val;
 pub mod wire;
